@@ -19,8 +19,9 @@ fact used about them); `cc : Cfg` is C18's parameter (code variant + float facts
 for every `cc`.  No theorem bounds the number or length of segments, the number of objects, the
 length of a history, or enumerates styles.
 
-`RVariant.repaired` is the code with the two repairs of `pending_fixes/C03-*.diff`; the `old_…`
-theorems show that today's code (`RVariant.today`) violates the statements.
+`RVariant.repaired` is the code with the two repairs (`fix:` commits c9ec5a8 and 23674a1, the former
+`pending_fixes/C03-*.diff`): it is what /repo contains now.  The `old_…` theorems show that rich 9.10.0 as
+found, before those fixes (`RVariant.today` — the name dates from then), violates the statements.
 
 Partial: the theorems are about *tokens*; token ↔ character serialisation (decimal digits, `;`, ESC)
 is defined (`serialise`) and validated on every run by the correspondence (`c03_chars`, `c03_toks`),
@@ -170,7 +171,7 @@ theorem history_single_terminal (outs : List (List Tok)) (h : ∀ o ∈ outs, fi
 /-! ## the three special configurations (both code variants) -/
 
 /-- **colour_none_no_escape.**  With colour disabled (`color_system=None`) every token written is
-the text of a segment: no SGR, no OSC 8 — for today's code as well as the repaired one, whatever the
+the text of a segment: no SGR, no OSC 8 — for rich 9.10.0 as found as well as the repaired code, whatever the
 caches hold. -/
 theorem colour_none_no_escape (v : RVariant) (cc : Cfg) (cfg : Config) (hcs : cfg.colorSystem = none)
     (heap : Heap) (segs : List Seg) (toks : List Tok) (heap' : Heap)
@@ -226,7 +227,7 @@ theorem not_terminal_no_control_partial (v : RVariant) (hv : v.styledControlKept
   simp only [hnc, Bool.false_eq_true, if_false]
   exact renderLoop_not_terminal v hv cc P cfg ht segs heap
 
-/-! ## Witnesses: the defects in the code as it stands -/
+/-! ## Witnesses: the defects of rich 9.10.0 as found (before fixes c9ec5a8, 23674a1; variant `RVariant.today`) -/
 
 /-- `Style(color="#ff8800")` -/
 def orange : Style :=
@@ -242,14 +243,14 @@ def onStandard : Config := ⟨some .standard, false, true, false⟩
 def twoConsoles : List Op :=
   [.newStyle orange, .render onTruecolor [⟨['x'], some 0, false⟩], .render onStandard [⟨['x'], some 0, false⟩]]
 
-/-- **Today's code (F7).**  The second console receives the 24-bit sequence computed for the first:
+/-- **rich 9.10.0 as found (F7, before fix c9ec5a8).**  The second console receives the 24-bit sequence computed for the first:
 `_ansi` is not keyed by the colour system. -/
 theorem old_stale_ansi_cache :
     runOps .today Cfg.repaired P [] twoConsoles =
       [.ok [.sgr [38, 2, 255, 136, 0], .text ['x'], .sgr [0]], .ok [.sgr [38, 2, 255, 136, 0], .text ['x'], .sgr [0]]] := by
   decide
 
-/-- …so `history_means_segments` is false for today's code: the 16-colour terminal shows an RGB
+/-- …so `history_means_segments` is false for the as-found code: the 16-colour terminal shows an RGB
 colour where the specification says entry 9 of its palette. -/
 theorem old_history_violates :
     ¬ ∃ outs : List (List Tok), runOps .today Cfg.repaired P [] twoConsoles = outs.map Except.ok ∧
@@ -276,7 +277,7 @@ def bold : Style :=
 
 def toFile : Config := ⟨some .truecolor, false, false, false⟩
 
-/-- **Today's code (F27).**  A control segment that carries a style is written to a non-terminal
+/-- **rich 9.10.0 as found (F27, before fix 23674a1).**  A control segment that carries a style is written to a non-terminal
 (`if style:` is tested before `is_control`): the clear-screen code reaches the file. -/
 theorem old_styled_control_written :
     renderBuffer .today Cfg.repaired P toFile [⟨bold, none⟩] [⟨"\x1b[2J".toList, some 0, true⟩] =
